@@ -139,6 +139,33 @@ def r06_1b(prog, tab):
     return r
 
 
+def r06_1c(prog, tab):
+    """In the DER, canonical UPER and (canonical) OER SET OF encoders no member encoder is handed the encoder's own output
+    (its callback parameter, or its PER output object): an element written straight to the output leaves in memory
+    order.  Member encoders may be called with a NULL callback (size pass) or with a collecting callback."""
+    r = Rule("R06.1c", "canonical SET OF encoders never let a member encoder write straight to the caller's output", floor=2)
+    for name in tab["setof_encoders_direct_output"]:
+        f = prog.func(name)
+        if f is None:
+            continue
+        outs = {p_["id"] for p_ in f.params if "asn_app_consume_bytes_f" in p_["type"] or "asn_per_outp" in p_["type"]}
+        n = 0
+        for b, i, e in f.calls():
+            if not (e.get("slot") in common.ENCODER_SLOTS and "asn_TYPE_operation" in e.get("slot_struct", "")):
+                continue
+            n += 1
+            key = "member->%s#%d" % (e["slot"], n)
+            direct = [a for a in e.get("args", []) if is_var(strip_casts(a.get("tree"))) and strip_casts(a.get("tree"))[1] in outs]
+            if direct:
+                r.bad(f, key, "the member encoder is given `%s`, this encoder's own output: elements are written in the order they have in "
+                              "memory, so two representations of the same set encode differently" % tree_text(direct[0]["tree"]), e["line"])
+            else:
+                r.ok(f, key, "member encoder called without the caller's output (size pass or collector)", e["line"])
+        if n == 0:
+            r.ok(f, "no-member-call", "no member encoder is called directly (elements are encoded by the sorting helper)", f.line)
+    return r
+
+
 def r06_2(prog, tab):
     r = Rule("R06.2", "a member whose value equals its DEFAULT is not encoded, in every pass of every canonical SEQUENCE/SET encoder", floor=5)
     for name in tab["default_eliminating_encoders"]:
@@ -354,7 +381,7 @@ def _reaches(f, cb, b):
 def run(ctx):
     prog = ctx.prog("S")
     tab = load_tables("c06")
-    return [r06_1(prog, tab), r06_1b(prog, tab), r06_2(prog, tab), r06_3(prog, tab), r06_4(prog, tab)]
+    return [r06_1(prog, tab), r06_1b(prog, tab), r06_1c(prog, tab), r06_2(prog, tab), r06_3(prog, tab), r06_4(prog, tab)]
 
 
 def thorough(ctx):
